@@ -192,8 +192,10 @@ AliasChecks(pre, post, ln, c, alias, want) ==
         post[c].e = want) }
 
 \* C15, result side: a single-pass range was consumed completely, exactly once
+\* range kinds whose iterators are single-pass: 0 (over elements), 8 (over construct-only sources)
+SinglePass(kind) == kind \in {0, 8}
 InputChecks(ln, kind, len) ==
-  { Chk("C15", "input-range-fully-consumed-once", ln.out = "ok" /\ kind = 0, ln.ret2 = len) }
+  { Chk("C15", "input-range-fully-consumed-once", ln.out = "ok" /\ SinglePass(kind), ln.ret2 = len) }
 
 (***************************************************************************)
 (* Unary operations                                                        *)
@@ -236,21 +238,21 @@ UnaryChecks(cfg, pre, post, ln) ==
     [] op = "insert_rng" ->
          \* a: pos, kind, len.  A single-pass range inserted mid-sequence may be buffered (C04 exception)
          MutateChecks(cfg, pre, post, ln, c, InsertAt(vs, a[1], fv), sz + a[3],
-                      Opt(FALSE, TRUE, a[2] # 0, TRUE, TRUE, a[1], a[1], ~(a[2] = 0 /\ a[1] < sz)))
+                      Opt(FALSE, TRUE, ~SinglePass(a[2]), TRUE, TRUE, a[1], a[1], ~(SinglePass(a[2]) /\ a[1] < sz)))
          \cup InputChecks(ln, a[2], a[3])
     [] op = "insert_il" ->
          MutateChecks(cfg, pre, post, ln, c, InsertAt(vs, a[1], fv), sz + a[2],
                       Opt(FALSE, TRUE, TRUE, TRUE, TRUE, a[1], a[1], TRUE))
     [] op = "append_rng" ->
          MutateChecks(cfg, pre, post, ln, c, vs \o fv, sz + a[2],
-                      Opt(TRUE, FALSE, a[1] # 0, TRUE, TRUE, sz, -1, TRUE))
+                      Opt(TRUE, FALSE, ~SinglePass(a[1]), TRUE, TRUE, sz, -1, TRUE))
          \cup InputChecks(ln, a[1], a[2])
     [] op = "append_il" ->
          MutateChecks(cfg, pre, post, ln, c, vs \o fv, sz + a[1], Opt(TRUE, FALSE, TRUE, TRUE, TRUE, sz, -1, TRUE))
     [] op = "assign_n" ->
          MutateChecks(cfg, pre, post, ln, c, Rep(a[1], fv[1]), a[1], Opt(FALSE, TRUE, TRUE, TRUE, TRUE, 0, -1, TRUE))
     [] op = "assign_rng" ->
-         MutateChecks(cfg, pre, post, ln, c, fv, a[2], Opt(FALSE, TRUE, a[1] # 0, TRUE, TRUE, 0, -1, TRUE))
+         MutateChecks(cfg, pre, post, ln, c, fv, a[2], Opt(FALSE, TRUE, ~SinglePass(a[1]), TRUE, TRUE, 0, -1, TRUE))
          \cup InputChecks(ln, a[1], a[2])
     [] op \in {"assign_il", "opeq_il"} ->
          MutateChecks(cfg, pre, post, ln, c, fv, a[1], Opt(FALSE, TRUE, TRUE, TRUE, TRUE, 0, -1, TRUE))
